@@ -31,7 +31,7 @@ CONFIG = {
     "C06": dict(gen=[], drivers=["Json"]),
     "C07": dict(gen=["Formats"], drivers=["TextCodec"]),
     "C08": dict(gen=["Schema"], drivers=["Store", "Schema"]),
-    "C09": dict(gen=["Schema"], drivers=["Store"]),
+    "C09": dict(gen=["Schema"], drivers=["Store", "Pager"]),
     "C10": dict(gen=["Models"], drivers=["ModelsF", "ModelEval"], extra_prop_files=["PgVerif/Tie/Models.lean"]),
 }
 
